@@ -54,14 +54,13 @@ nextchar(struct scanner *s)
 
 	if (s->usebuf)
 		bufadd(&s->buf, s->chr);
+	/* the new-line character belongs to the line it ends */
+	if (s->chr == '\n')
+		++s->loc.line, s->loc.col = 0;
 	for (;;) {
 		s->chr = getc(s->file);
 		if (s->chr == EOF && ferror(s->file))
 			fatal("read %s:", s->loc.file);
-		if (s->chr == '\n') {
-			++s->loc.line, s->loc.col = 0;
-			break;
-		}
 		++s->loc.col;
 		if (s->chr != '\\')
 			break;
@@ -422,6 +421,7 @@ scanfrom(const char *name, FILE *file)
 	s->buf.cap = 0;
 	s->usebuf = false;
 	s->sawspace = false;
+	s->chr = 0;
 	s->loc.file = name;
 	s->loc.line = 1;
 	s->loc.col = 0;
